@@ -133,7 +133,8 @@ def _conv_like(net, kind, k, s, pad, act, cout=None, dil=1, per_channel=False, d
     x = net.cur
     t = net.T(x)
     n, h, w, c = t["shape"]
-    oh, ow = _out_hw(h, k, s, dil, pad), _out_hw(w, k, s, dil, pad)
+    dil_h, dil_w = dil if isinstance(dil, tuple) else (dil, dil)
+    oh, ow = _out_hw(h, k, s, dil_h, pad), _out_hw(w, k, s, dil_w, pad)
     if oh <= 0 or ow <= 0:
         return False
     dt = t["dtype"]
@@ -163,10 +164,10 @@ def _conv_like(net, kind, k, s, pad, act, cout=None, dil=1, per_channel=False, d
         ins.append(-1)
     y = net.act([n, oh, ow, cout], dt)
     if kind == "conv":
-        opts = ("Conv2DOptions", dict(Padding=pad, StrideW=s, StrideH=s, FusedActivationFunction=ACT[act], DilationWFactor=dil, DilationHFactor=dil))
+        opts = ("Conv2DOptions", dict(Padding=pad, StrideW=s, StrideH=s, FusedActivationFunction=ACT[act], DilationWFactor=dil_w, DilationHFactor=dil_h))
         net.op("CONV_2D", ins, [y], opts, version=3 if per_channel else 1)
     else:
-        opts = ("DepthwiseConv2DOptions", dict(Padding=pad, StrideW=s, StrideH=s, DepthMultiplier=dm, FusedActivationFunction=ACT[act], DilationWFactor=dil, DilationHFactor=dil))
+        opts = ("DepthwiseConv2DOptions", dict(Padding=pad, StrideW=s, StrideH=s, DepthMultiplier=dm, FusedActivationFunction=ACT[act], DilationWFactor=dil_w, DilationHFactor=dil_h))
         net.op("DEPTHWISE_CONV_2D", ins, [y], opts, version=3 if per_channel else 1)
     return True
 
@@ -176,6 +177,52 @@ inst("conv3x3", "c")(lambda n: _conv_like(n, "conv", 3, 1, PAD_SAME, "NONE", per
 inst("conv3x3s2", "c")(lambda n: _conv_like(n, "conv", 3, 2, PAD_SAME, "RELU"))
 inst("conv3x3v_relu6", "c")(lambda n: _conv_like(n, "conv", 3, 1, PAD_VALID, "RELU6", cout=16))
 inst("conv3x3d2")(lambda n: _conv_like(n, "conv", 3, 1, PAD_SAME, "NONE", dil=2))
+@inst("conv_again")
+def _conv_again(net):
+    """a second convolution that shares the weight tensor of the most recent convolution but has its own bias
+    (the compiler then keeps one encoded weight tensor and a separate scale/bias tensor for the second operator)"""
+    x = net.cur
+    t = net.T(x)
+    if not _hw4(net):
+        return False
+    prev = [o for o in net.ops if o["op"] == "CONV_2D" and net.T(o["inputs"][1])["data"] is not None and o["inputs"][2] >= 0]
+    if not prev:
+        return False
+    o = prev[-1]
+    wi = o["inputs"][1]
+    wshape = net.T(wi)["shape"]
+    if wshape[3] != t["shape"][3] or net.T(o["inputs"][0])["dtype"] != t["dtype"]:
+        return False
+    opts = dict(o["opts"][1])
+    n, h, w, c = t["shape"]
+    k = wshape[1]
+    dil = opts["DilationHFactor"]
+    oh, ow = _out_hw(h, k, opts["StrideH"], dil, opts["Padding"]), _out_hw(w, k, opts["StrideW"], opts["DilationWFactor"], opts["Padding"])
+    if oh <= 0 or ow <= 0:
+        return False
+    wsc = net.T(wi)["quant"]["scale"]
+    bdt = net.T(o["inputs"][2])["dtype"]
+    bi = net.const([wshape[0]], bdt, "bias", scale=[net.scale(x) * v for v in wsc], zp=0)
+    y = net.act([n, oh, ow, wshape[0]], t["dtype"])
+    net.op("CONV_2D", [x, wi, bi], [y], ("Conv2DOptions", opts), version=o["version"])
+    return True
+
+
+@inst("conv_pair_shared")
+def _conv_pair_shared(net):
+    """two 3x3 convolutions (depth preserved) that share one weight tensor and have different biases"""
+    if not _hw4(net) or net.T(net.cur)["shape"][3] > 64:
+        return False
+    c = net.T(net.cur)["shape"][3]
+    if not _conv_like(net, "conv", 3, 1, PAD_SAME, "NONE", cout=c):
+        return False
+    return _conv_again(net)
+
+
+inst("conv3x3_c1")(lambda n: _conv_like(n, "conv", 3, 1, PAD_SAME, "NONE", cout=1))
+inst("conv3x3d2x1", "t")(lambda n: _conv_like(n, "conv", 3, 1, PAD_SAME, "NONE", dil=(2, 1)))
+inst("conv3x3d1x2", "t")(lambda n: _conv_like(n, "conv", 3, 1, PAD_SAME, "NONE", dil=(1, 2)))
+inst("dw3x3d2x1", "t")(lambda n: _conv_like(n, "dw", 3, 1, PAD_SAME, "NONE", dil=(2, 1)))
 inst("conv5x5_c24", "t")(lambda n: _conv_like(n, "conv", 5, 1, PAD_SAME, "NONE", cout=24, per_channel=True))
 inst("conv2x2v", "t")(lambda n: _conv_like(n, "conv", 2, 1, PAD_VALID, "RELU_N1_TO_1"))
 inst("conv1x1_nobias", "t")(lambda n: _conv_like(n, "conv", 1, 1, PAD_SAME, "NONE", bias=False))
@@ -385,6 +432,21 @@ def _split(net):
     return True
 
 
+@inst("split_w", "t")
+def _split_w(net):
+    x = net.cur
+    t = net.T(x)
+    if not _hw4(net) or t["shape"][2] % 2:
+        return False
+    ax = net.const([], "int32", "data", values=2)
+    h = t["shape"][:2] + [t["shape"][2] // 2, t["shape"][3]]
+    y0 = net.act(h, t["dtype"], q=(net.scale(x), net.zp(x)))
+    y1 = net.act(h, t["dtype"], q=(net.scale(x), net.zp(x)))
+    net.op("SPLIT", [ax, x], [y0, y1], ("SplitOptions", dict(NumSplits=2)))
+    net.cur = y1
+    return True
+
+
 @inst("strided_slice")
 def _sslice(net):
     x = net.cur
@@ -441,6 +503,35 @@ def _mean(net):
     ax = net.const([2], "int32", "data", values=[1, 2])
     y = net.act([t["shape"][0], 1, 1, t["shape"][3]], t["dtype"])
     net.op("MEAN", [x, ax], [y], ("ReducerOptions", dict(KeepDims=True)))
+    return True
+
+
+def _mean_ax(net, axes, keep=True):
+    x = net.cur
+    t = net.T(x)
+    if not _hw4(net):
+        return False
+    ax = net.const([len(axes)], "int32", "data", values=list(axes))
+    shp = [1 if i in axes else d for i, d in enumerate(t["shape"])] if keep else [d for i, d in enumerate(t["shape"]) if i not in axes]
+    y = net.act(shp, t["dtype"])
+    net.op("MEAN", [x, ax], [y], ("ReducerOptions", dict(KeepDims=keep)))
+    return True
+
+
+inst("mean_h", "t")(lambda n: _mean_ax(n, [1]))
+inst("mean_w_drop", "t")(lambda n: _mean_ax(n, [2], keep=False))
+inst("mean_batch1", "t")(lambda n: _mean_ax(n, [0]) if n.T(n.cur)["shape"][0] == 1 else False)
+
+
+@inst("argmax", "t")
+def _argmax(net):
+    x = net.cur
+    t = net.T(x)
+    if not _hw4(net) or t["dtype"] == "int16" or t["shape"][3] > 127:
+        return False
+    ax = net.const([], "int32", "data", values=3)
+    y = net.act(t["shape"][:3], "int32", noquant=True)
+    net.op("ARG_MAX", [x, ax], [y], ("ArgMaxOptions", dict(OutputType=2)))
     return True
 
 
@@ -592,7 +683,7 @@ SIGMA_Q = [
     "conv1x1", "conv3x3", "conv3x3s2", "conv3x3v_relu6", "conv3x3d2", "dw3x3", "dw3x3s2", "fc", "maxpool2x2",
     "avgpool2x2", "avgpool3x3same", "add_res", "add_const", "add_scalar", "add_bcast_h", "sub_const", "mul_const",
     "min_const", "relu", "leaky_relu", "logistic", "tanh", "hard_swish", "reshape", "concat", "split", "strided_slice",
-    "pad_hw", "pad_c", "mean", "resize_nn2", "quantize", "tconv_s2", "softmax", "cpu_d2s", "cpu_custom", "conv_dynw", "cpu_neg", "tap", "branch_cpu", "branch_npu", "conv_dynw_nobias", "cpu_custom_opt",
+    "pad_hw", "pad_c", "mean", "resize_nn2", "quantize", "tconv_s2", "softmax", "cpu_d2s", "cpu_custom", "conv_dynw", "cpu_neg", "tap", "branch_cpu", "branch_npu", "conv_dynw_nobias", "cpu_custom_opt", "conv3x3_c1", "slice", "conv_again", "conv_pair_shared",
 ]
 SIGMA_T = SIGMA_Q + [n for n, (_, tags) in INSTANCES.items() if "t" in tags]
 SIGMA_C = [n for n, (_, tags) in INSTANCES.items() if "c" in tags]
